@@ -11,8 +11,8 @@ import FeatherModel.Model.MapDesc
   table of methods, keyed `(name_from, desc_from)` with value `(name_to, desc_to)` where `desc_from`/`desc_to` are the
   stored descriptor (first namespace) pushed through `remapper_a(0, from)` / `remapper_a(0, to)`. Members without both
   names are skipped; a descriptor `map_desc` rejects in a *used* row makes the whole construction fail.
-* `map_field_fail` / `map_method_fail`: if the owner has no table (is not mapped) the answer is `None` without looking at
-  super types; otherwise own table, then the super types of the `SuperClassProvider` in declaration order, recursively.
+* `map_field_fail` / `map_method_fail` (as of `c873813`): the owner's own table if it has one, then — whether or not the
+  owner has a mapping — the super types of the `SuperClassProvider` in declaration order, recursively.
   The Rust recursion is unbounded (a cyclic provider overflows the stack, see C16); the model takes fuel and returns
   `none` (outer option) when it runs out.
 * `map_field`, `map_method` (fallback: same name, descriptor through `map_desc`), `map_field_ref`, `map_method_ref`
@@ -145,21 +145,25 @@ def firstSomeM {α β : Type} (f : α → Option (Option β)) : List α → Opti
     | some (some b) => some (some b)
     | some none => firstSomeM f rest
 
-/-- `map_field_fail` (`sel = BClass.fields`) / `map_method_fail` (`sel = BClass.methods`).
+/-- what class `c` declares for `key`: the entry of its own table; nothing when it has no table -/
+def declares (sel : BClass → AList MemberKey MemberKey) (r : BTable) (key : MemberKey) (c : JStr) : Option MemberKey :=
+  match AList.lookup c r with
+  | none => none
+  | some cls => AList.lookup key (sel cls)
+
+/-- `map_field_fail` (`sel = BClass.fields`) / `map_method_fail` (`sel = BClass.methods`): own table (if any), then
+the super types, also for an owner without a mapping.
 Outer `none` = fuel exhausted (the Rust code would still be recursing). -/
 def mapMemberFail (sel : BClass → AList MemberKey MemberKey) (r : BTable) (sup : Supers) :
     Nat → JStr → MemberKey → Option (Option MemberKey)
   | 0, _, _ => none
   | fuel + 1, owner, key =>
-    match AList.lookup owner r with
-    | none => some none
-    | some cls =>
-      match AList.lookup key (sel cls) with
-      | some v => some (some v)
-      | none =>
-        match AList.lookup owner sup with
-        | none => some none
-        | some ss => firstSomeM (fun s => mapMemberFail sel r sup fuel s key) ss
+    match declares sel r key owner with
+    | some v => some (some v)
+    | none =>
+      match AList.lookup owner sup with
+      | none => some none
+      | some ss => firstSomeM (fun s => mapMemberFail sel r sup fuel s key) ss
 
 /-- the `unwrap_or_else` of `map_field` / `map_method`; `none` = `map_desc` failed -/
 def fallback (r : BTable) (res : Option MemberKey) (key : MemberKey) : Option MemberKey :=
@@ -194,8 +198,9 @@ def mapMethodRef (r : BTable) (sup : Supers) (fuel : Nat) (cls : JStr) (key : Me
     | none => some none
   else mapRefObj BClass.methods r sup fuel cls key
 
-/-- fuel that always suffices when the provider is acyclic on the mapped classes (`Thm.C06.acyclic_fuel`) -/
-def defaultFuel (r : BTable) : Nat := r.length + 1
+/-- fuel that always suffices when the provider is acyclic (`Thm.C06.acyclic_fuel`): every class on a path of the
+search except the last one is a row of the provider -/
+def defaultFuel (sup : Supers) : Nat := sup.length + 1
 
 /-! ## Specification helpers used by theorems and oracles -/
 
@@ -210,26 +215,18 @@ def concatM {α β : Type} (f : α → Option (List β)) : List α → Option (L
       | none => none
       | some y => some (x ++ y)
 
-/-- pre-order of the classes `map_*_fail` may look at: the owner if it is mapped, then its super types, recursively;
-a class reachable along two paths is listed twice. Outer `none` = out of fuel. -/
-def dfs (r : BTable) (sup : Supers) : Nat → JStr → Option (List JStr)
+/-- pre-order of the provider's graph from the owner — the classes `map_*_fail` looks at, in that order: the owner, then
+its super types in declaration order, recursively, whether or not the classes have a mapping; a class reachable along
+two paths is listed twice. Outer `none` = out of fuel. -/
+def dfs (sup : Supers) : Nat → JStr → Option (List JStr)
   | 0, _ => none
   | fuel + 1, owner =>
-    match AList.lookup owner r with
-    | none => some []
-    | some _ =>
-      match AList.lookup owner sup with
-      | none => some [owner]
-      | some ss =>
-        match concatM (fun s => dfs r sup fuel s) ss with
-        | none => none
-        | some l => some (owner :: l)
-
-/-- what class `c` declares for `key` -/
-def declares (sel : BClass → AList MemberKey MemberKey) (r : BTable) (key : MemberKey) (c : JStr) : Option MemberKey :=
-  match AList.lookup c r with
-  | none => none
-  | some cls => AList.lookup key (sel cls)
+    match AList.lookup owner sup with
+    | none => some [owner]
+    | some ss =>
+      match concatM (fun s => dfs sup fuel s) ss with
+      | none => none
+      | some l => some (owner :: l)
 
 /-- "`c` is the only source of its image": every row whose `to`-name is the image of `c` has `from`-name `c`.
 For an unmapped `c` this says that `c` is not a target name. -/
